@@ -94,7 +94,7 @@ Qed.
 Definition ok_elided : program :=
   mkProg [(4, ELit [117%Z])]
          [mkFun [mkParam 1 false; mkParam 2 true]
-                [SAssign 2 (ECat (EVar 2) (EVar 1)); SPrint (EVar 1)] None]
+                [SAssign 2 (ECat (EVar 2) (EVar 1)); SPrint (EVar 1)] None false]
          [SDecl 5 (ELit [97%Z; 98%Z]); SCall None 0 [AVal (EVar 5); ARef 4]; SPrint (EVar 5); SPrint (EVar 4)].
 
 Lemma ok_elided_facts :
